@@ -1034,9 +1034,16 @@ def rule_skip_guard(ctx: Ctx, rid="C11.SKIP-GUARD"):
         uses_param = False
         nodes = list(ast.walk(fe))
         # helper functions of the module that are not single-expression: take every call they make
+        helper_names = set()
         for n in list(nodes):
-            if isinstance(n, ast.Call) and dotted(n.func) in m.functions():
-                callee = m.functions()[dotted(n.func)]
+            if not isinstance(n, ast.Call):
+                continue
+            d_ = dotted(n.func) or ""
+            callee = m.functions().get(d_)
+            if callee is None and d_.split(".")[0] in ("self", "cls", c.name) and len(d_.split(".")) == 2:
+                callee = m.get_method(c, d_.split(".")[1], required=False)
+            if callee is not None:
+                helper_names.add(d_)
                 nodes += [x for x in ast.walk(callee) if x is not callee]
                 if any(isinstance(a_, ast.Name) and a_.id == param for a_ in n.args):
                     uses_param = True
@@ -1046,7 +1053,8 @@ def rule_skip_guard(ctx: Ctx, rid="C11.SKIP-GUARD"):
             if isinstance(n, ast.Call):
                 d = dotted(n.func) or (n.func.attr if isinstance(n.func, ast.Attribute) else "?")
                 last = d.split(".")[-1]
-                if last in ("encode", "hexdigest", "digest") or d.startswith("hashlib.") or d in ("str", "bytes") or d in m.functions():
+                if last in ("encode", "hexdigest", "digest") or d.startswith("hashlib.") or d in ("str", "bytes") or d in m.functions() \
+                        or d in helper_names:
                     continue
                 if d in ("re.compile",):
                     continue
@@ -1281,6 +1289,12 @@ def rule_call_forwards(ctx: Ctx, rid="C09.CALL-FORWARDS", publish=False, no_try=
             continue
         n += 1
         v = p.exit_node.value
+        result_stmt = None
+        if isinstance(v, ast.Name):
+            defs = [s_ for s_ in p.stmts() if isinstance(s_, ast.Assign) and len(s_.targets) == 1
+                    and isinstance(s_.targets[0], ast.Name) and s_.targets[0].id == v.id]
+            if len(defs) == 1 and isinstance(defs[0].value, ast.Call):
+                result_stmt, v = defs[0], defs[0].value
         # locals that merely hold a pure load of an evaluator attribute (fn = self.run_experiment)
         loads = {}
         for s_ in p.stmts():
@@ -1292,7 +1306,7 @@ def rule_call_forwards(ctx: Ctx, rid="C09.CALL-FORWARDS", publish=False, no_try=
         direct = isinstance(v, ast.Call) and callee and (callee.startswith("self.") or via_local) and not v.args and \
             len(v.keywords) == 1 and v.keywords[0].arg is None and dotted(v.keywords[0].value) == kw
         others = [s for s in p.stmts() if s is not p.exit_node and not (isinstance(s, ast.Expr) and isinstance(s.value, ast.Constant))
-                  and s not in loads.values()]
+                  and s not in loads.values() and s is not result_stmt]
         touches_self = [s for s in others if any((isinstance(x, ast.Attribute) and dotted(x.value) == "self") or
                                                  (isinstance(x, ast.Name) and x.id == "self") for x in ast.walk(s))]
         same_callee = isinstance(v, ast.Call) and callee and (callee.startswith("self.") or via_local) and not v.args
